@@ -578,7 +578,7 @@ CORPUS_FUZZ = [
     ["@1 psg 15 14", "A @1 c"], ["@1 psg 15 14", "G @1 c"], ["A o9 c"], ["A o4 c *20", "*20 o9 c"], ["A %5 c"], ["A c %5 c"], ["A c", "  d %5"],
     ["A c /"], ["A c ]"], ["A c *20", "*20 c ]"], ["A c *99"], ["A 'abc"], ["AB {c/d"], ["AB {c d"], ["AB c {d/e} ? f"], ["A \\=1"], ["A o"],
     ["A c0"], ["A c d", "A o"], ["A v"], ["A [[[[[[[[[[[c]]]]]]]]]]]"], ["A *20", "*20 *21", "*21 *20"], ["A c ]-1"], ["A [c]-1"],
-    ["@1 foo 1", "A c"], ["@1 fm 1 2 3", "A @1 c"], ["@0 psg 1", "A @0 c"], ["A @0 c"], ["G @0 c"], ["A D1 c", "*0 d"], ["A D1 o9 c"],
+    ["@1 foo 1", "A c"], ["@1 ;no type", "A c"], ["@1 psg 15", "@2 ;", "A @1 c"], ["@1 fm 1 2 3", "A @1 c"], ["@0 psg 1", "A @0 c"], ["A @0 c"], ["G @0 c"], ["A D1 c", "*0 d"], ["A D1 o9 c"],
     ["A D30 c", "*30 e", "*31 f"], ["A D30 d"], ["A D30 c", "*30 @77 e"], ["A D30 c", "*30 D0 o9 e"], ["A D30 c", "*30 v5"], ["A *20", "*20 D30 c", "*30 o9 D0 c"],
     ["A *20 c", "*20"], ["A [ *20", "*20"], ["A c L"], ["A L"], ["*20 c ]"], ["Q [ c"], ["A P5 c"], ["A M5 c"], ["A c\t?"],
     ["\tc"], [" A c"], ["A", "\t?"], ["A c", "", " ?"], ["#title x", " ?"], ["A c ; ?"], ["ABC c {d/e} f"], ["AB {c/d/e} f"], ["A }"],
